@@ -126,6 +126,11 @@ pub mod a3 {
             // routing of `Shape::scale_dyn`: which TypedShape variant comes back (recursively for compounds)
             "scale_dyn_kind3" => { let s = super::super::ext::e3::sh(a); let sc = d3::v(a); let n = a.u() as u32;
                 match s.scale_dyn(&sc, n) { None => "none".into(), Some(r) => fkind(&*r) } }
+            // RoundConvexPolyhedron::to_outline: offset faces joined by arcs around the vertices; the hull the code built is printed too
+            "rpolyh_outline" => { let k = a.u(); let pts: Vec<P3> = (0..k).map(|_| d3::p(a)).collect(); let br = a.f(); let n = a.u() as u32;
+                let poly = ConvexPolyhedron::from_convex_hull(&pts).expect("convex hull");
+                let mesh = poly.to_trimesh();
+                format!("{} {}", super::super::ext::e3::foutline(&RoundShape { inner_shape: poly, border_radius: br }.to_outline(n)), super::super::ext::e3::fmesh(&mesh)) }
             "aabb_scaled3" => { let lo = d3::p(a); let hi = d3::p(a); let sc = d3::v(a); fbox(&Aabb::new(lo, hi).scaled(&sc)) }
             _ => return None,
         })
@@ -397,6 +402,10 @@ pub mod g {
             }
             // routing of scale_dyn over every shape kind and scale family (uniform / x=z / mixed signs / general)
             for _ in 0..2 { v.push(("scale_dyn_kind3".into(), format!("{} {} {}", super::super::ext::g::shape3(r, lat), d3::hv(&super::super::ext::g::scale3(r, lat)), 3 + r.below(8)))); }
+            if it % 8 == 2 {
+                let br = if lat { *r.pick(&[0.25, 0.5, 1.0]) } else { r.logu(0.05, 2.0) };
+                v.push(("rpolyh_outline".into(), format!("{} {} {}", super::super::ext::g::hull_pts3(r, lat), hx(br), 2 + r.below(5))));
+            }
             // Aabb::scaled alone, every sign pattern (proper boxes, incl. flat ones)
             let lo = d3::gen_v(r, lat, 4.0); let e = V3::new(r.coord(lat, 2.0).abs(), r.coord(lat, 2.0).abs(), if it % 7 == 0 { 0.0 } else { r.coord(lat, 2.0).abs() });
             v.push(("aabb_scaled3".into(), format!("{} {} {}", d3::hv(&lo), d3::hv(&(lo + e)), d3::hv(&sc))));
